@@ -937,6 +937,35 @@ func (e *env) dispatch(cmd string, a []string, binding bool) outcome {
 
 	/* ----- components: losses, metrics, optimizers ----- */
 
+	case "zero":
+		// the zero value of a component struct (no constructor call): `var l losses.BCE`, `new(activations.Sigmoid)`, ...
+		if n != 1 {
+			return oBad
+		}
+		switch a[0] {
+		case "relu":
+			return outcome{st: "ok", bind: &val{k: kLayer, layer: new(activations.Relu)}}
+		case "sigmoid":
+			return outcome{st: "ok", bind: &val{k: kLayer, layer: new(activations.Sigmoid)}}
+		case "tanh":
+			return outcome{st: "ok", bind: &val{k: kLayer, layer: new(activations.Tanh)}}
+		case "leaky":
+			return outcome{st: "ok", bind: &val{k: kLayer, layer: new(activations.LeakyRelu)}}
+		case "softmax":
+			return outcome{st: "ok", bind: &val{k: kLayer, layer: new(activations.Softmax)}}
+		case "mse":
+			return outcome{st: "ok", bind: &val{k: kLoss, loss: new(losses.MSE)}}
+		case "bce":
+			return outcome{st: "ok", bind: &val{k: kLoss, loss: new(losses.BCE)}}
+		case "ce":
+			return outcome{st: "ok", bind: &val{k: kLoss, loss: new(losses.CE)}}
+		case "accuracy":
+			return outcome{st: "ok", bind: &val{k: kMetric, metric: new(metrics.Accuracy)}}
+		case "sgd":
+			return outcome{st: "ok", bind: &val{k: kOpt, opt: new(optimizers.SGD)}}
+		}
+		return oBad
+
 	case "mse", "bce", "ce":
 		if n != 0 {
 			return oBad
@@ -1103,7 +1132,7 @@ func isBindCmd(cmd string) bool {
 type foreignTensor struct{ tensor.Tensor }
 
 var bindCmds = map[string]bool{
-	"wrap": true, "ints": true, "ranges": true, "tensors": true, "data": true,
+	"wrap": true, "zero": true, "ints": true, "ranges": true, "tensors": true, "data": true,
 	"full": true, "zeros": true, "ones": true, "eye": true, "randu": true, "randn": true,
 	"tensorof": true, "concat": true, "slice": true, "patch": true, "transpose": true,
 	"shape": true, "grad": true, "init": true, "initcall": true, "fc": true, "input": true,
